@@ -197,6 +197,23 @@ CLAIMED = {
              "interleaved (the shard manager has none on the fields checked). Bound: preemptions, not depth.",
         technique="stateless DFS over thread interleavings of the implementation with iterative preemption bounding (controlled scheduler)",
         design_ref="5/C08", engine="A-micro"),
+    "C09": dict(
+        level="model_checking",
+        text="Convergence: explicit-state BFS (state = action path replayed on fresh instances, de-duplicated on a canonical key in which "
+             "instants are replaced by their rank) over 2-3 real shardManagerImpl instances driven at the memberlist delegate seam: register / "
+             "unregister claims, and every order, delay and single duplication of the resulting announcements (real NotifyMsg), of state "
+             "snapshots (real LocalState / MergeRemoteState) and of leave notifications (real NotifyLeave). From EVERY state the system is "
+             "quiesced (everything delivered, fresh state exchanged between live pairs) and the oracle evaluated: no shard owned by two live "
+             "instances, the newest claim owns, departed instances listed by nobody, remote views equal local tables. Routing: exhaustive "
+             "table {local stream present / closed-but-registered / absent} x {remote owner with stream / peer known without a stream for "
+             "the pair / owner without peer state / unknown / owner without address} x {message, ack with and without forwarding} through the "
+             "real DeliverMessagesToShardOwner / DeliverAckToShardOwner and intraProxyManager with fake intra-proxy streams: true <=> exactly "
+             "one copy handed to exactly one recipient (local first), false <=> nothing handed over.",
+        note="memberlist itself is the environment (reliable send, push/pull, leave detection are assumed as the statement says); the sending "
+             "half of an announcement (broadcastShardChange needs a live memberlist) is transcribed in the harness. One clock, atomic claims, "
+             "full mutual knowledge before the first claim. Bounds: <=3 instances, <=2 shards, <=3 application actions, <=1-2 snapshots, <=1 leave.",
+        technique="explicit-state BFS over message delivery orders on the implementation's handlers + exhaustive routing table",
+        design_ref="5/C09", engine="A-macro"),
     "C10": dict(
         level="model_checking",
         text="Macro: explicit-state BFS over fault sequences (depth 5, pool sizes 1-2; thorough depth 7, sizes 1-3; both yamux roles) on the "
@@ -296,7 +313,7 @@ def main():
             {"name": "A-micro", "path": "/verif/rt/sched.go + /verif/instr (vinstr) + /verif/harness/proxy/c08_registry.go", "serves_properties": ["C08", "C10", "C11"],
              "kind_free_text": "cooperative scheduler over AST-rewritten sources (locks, channel ops, go statements become scheduling points); "
                                "stateless depth-first enumeration of schedules with preemption bounding, one synctest bubble per schedule"},
-            {"name": "A-macro", "path": "/verif/harness/proxy/routing_*.go + /verif/rt/pool.go", "serves_properties": ["C01", "C02", "C03", "C04", "C06", "C10", "C11", "C20"],
+            {"name": "A-macro", "path": "/verif/harness/proxy/routing_*.go + /verif/rt/pool.go", "serves_properties": ["C01", "C02", "C03", "C04", "C06", "C09", "C10", "C11", "C20"],
              "kind_free_text": "explicit-state BFS whose transitions are executions of the real goroutines in testing/synctest bubbles; "
                                "successors by replay; 16 persistent GOMAXPROCS=1 worker processes"},
         ],
